@@ -95,3 +95,21 @@ Example C08_runs :
    map (mask_store_fb 4 5 [10; 11; 12; 13] (fun _ => -1)) [0; 1; 2; 3; 4]%nat)
   = (5, 0, [-2147483648; 1; 0; 7], [-2147479015; 2147479015; -2; -2147483648], [10; -1; 12; -1; -1]).
 Proof. vm_compute. reflexivity. Qed.
+
+(** * Tie to the source (translator): the arithmetic operators of the floating SIMD types
+    (simd_vector_double.h, simd_vector_float.h; sse, avx and avx512), as translated on every run: each of the ~150
+    overloads issues exactly one arithmetic intrinsic, of the operator's own kind (add / sub / mul / div; neg for
+    unary minus), of the width of the type it belongs to and of the element type's suffix; every (type, operator,
+    width) has its three compound forms and three binary functions.  The lane-wise meaning of the intrinsics is
+    Intel's specification: trusted, and observed by the lane correspondence of this property. *)
+From Coq Require Import Arith.
+From FastorV Require Import Gen.GeneratedAccess Proofs.GenAccessEq.
+Local Open Scope nat_scope.
+Theorem C08_source_floating_operators :
+  forallb simd_fp_operator_ok gen_simd_fp_operators = true /\
+  forallb (fun k : nat * nat * nat => let '(ty, op, w) := k in
+     (3 <=? List.length (filter (fun e : nat * nat * bool * nat * nat * nat * bool => let '(t, o, c, w', _, s, _) := e in (t =? ty) && (o =? op) && c && (w' =? w) && (s =? op)) gen_simd_fp_operators)) &&
+     (3 <=? List.length (filter (fun e : nat * nat * bool * nat * nat * nat * bool => let '(t, o, c, w', _, s, _) := e in (t =? ty) && (o =? op) && negb c && (w' =? w) && (s =? op)) gen_simd_fp_operators)))
+    (flat_map (fun ty => flat_map (fun op => map (fun w => (ty, op, w)) [1; 2; 3]) [1; 2; 3; 4]) [0; 1]) = true.
+Proof. exact gen_simd_fp_operators_ok. Qed.
+Print Assumptions C08_source_floating_operators.
